@@ -605,6 +605,21 @@ func Encode(req int, op Op, nowNs int64) *Wire {
 	default:
 		panic("unknown proto " + op.Proto)
 	}
+	// "__ttl_days__" is a control label: unless the request carries a usable X-Ttl-Days header the writer takes the
+	// retention from it and stores the series without it
+	if ttl, err := strconv.ParseUint(op.TTLHdr, 10, 16); err != nil || ttl == 0 {
+		for _, x := range w.Rows {
+			if _, ok := x.Labels["__ttl_days__"]; ok {
+				m := map[string]string{}
+				for k, v := range x.Labels {
+					if k != "__ttl_days__" {
+						m[k] = v
+					}
+				}
+				x.Labels, x.LabelKey = m, labelKey(m)
+			}
+		}
+	}
 	return w
 }
 
